@@ -5,11 +5,12 @@
    reported by UsedVars, a pointer value is shared with the caller, and a non-pointer value is
    copied."
 
-   A CASE is   [sup, ext, init, refs]
+   A CASE is   [typ, sup, ext, init, refs]
+     typ   "int" | "any"         the declared type of the two globals X and Y (with "any" they hold ints)
      sup   "value" | "pointer"   how the two globals X and Y are supplied to Run
      ext   BOOLEAN               FALSE: index.html is the body; TRUE: index.html extends layout.html
      init  <<vX, vY>>            the supplied values
-     refs  sequence, in EXECUTION order, of [sc, op, var, hoist, v]
+     refs  sequence, in EXECUTION order, of [sc, op, var, hoist, v, nest, join]
              sc    where the reference is written:
                      top        body of index.html                      (ext = FALSE)
                      layout     body of layout.html, the extended file  (ext = TRUE)
@@ -20,10 +21,16 @@
                      extending  macro declared by the file that extends the layout
                      pkgvar     NOT a reference to a global: a silent reference to variable X of the
                                 native package p (same name, other package, declared with a value)
-             op    "r" (prints [sc:value]) | "w" (assigns v)
+             op    "r" (prints [sc:value]) | "d" (prints [sc:value] through `X default 7`; X is declared,
+                   so the default expression IS a reference to X) | "w" (assigns v)
              var   "X" | "Y"
              hoist 1: (macro/closure) the declaration is the first thing of the body file, so it is
                    the first reference the compiler meets (EMISSION order # execution order)
+             nest  0: written directly in the function of its scope; 1: inside a function literal nested
+                   in it (for sc = closure: a literal in the literal); 2: inside a macro nested in it
+             join  1: in the SAME macro / file as the previous reference (same sc, same hoist), which is
+                   then called / rendered once for both: "the enclosing macro, or a sibling nested
+                   function, already referred to the variable"
    The first part is the REFERENCE (what the property demands: a register).  The second part is an
    IMPLEMENTATION-SHAPED model of how the compiler records globals per function and how Run binds
    them; it decides nothing about the code (DESIGN 2.3). *)
@@ -31,6 +38,21 @@ EXTENDS Integers, Sequences, FiniteSets, Text
 
 VarIdx(v) == IF v = "X" THEN 1 ELSE 2
 IsGlobalRef(r) == r.sc # "pkgvar"
+IsRead(r) == r.op \in {"r", "d"}
+Containers == {"macro", "imported", "rendered", "extending"}     \* scopes that are a macro or a file of their own
+\* which sequences are templates the driver can write (MC generates only these; Trace skips any other)
+WellFormedRef(refs, i) ==
+  LET r == refs[i] IN
+  /\ r.op \in {"r", "d", "w"} /\ r.var \in {"X", "Y"} /\ r.hoist \in {0, 1} /\ r.nest \in {0, 1, 2} /\ r.join \in {0, 1}
+  /\ r.sc \in {"top", "layout", "pkgvar"} => (r.nest = 0 /\ r.join = 0 /\ r.hoist = 0)
+  /\ r.sc = "pkgvar" => (r.op = "r" /\ r.var = "X")
+  /\ r.sc = "closure" => (r.nest \in {0, 1} /\ r.join = 0 /\ r.op # "d")
+  /\ r.sc \in {"imported", "rendered", "extending"} => r.hoist = 0
+  /\ r.op = "d" => r.nest # 1                    \* a default expression cannot be written in Go code
+  /\ r.join = 1 => (r.sc \in Containers /\ i > 1 /\ refs[i - 1].sc = r.sc /\ refs[i - 1].hoist = r.hoist)
+WellFormed(ext, refs) == \A i \in 1..Len(refs) :
+  /\ refs[i].sc \in (IF ext THEN {"layout", "extending"} ELSE {"top"}) \cup {"macro", "closure", "imported", "rendered", "pkgvar"}
+  /\ WellFormedRef(refs, i)
 Idx(refs) == [i \in 1..Len(refs) |-> i]
 NeededVars(refs) == {refs[i].var : i \in {j \in 1..Len(refs) : IsGlobalRef(refs[j])}}
 
@@ -42,7 +64,7 @@ RefExec(refs, i, reg, reads) ==
   ELSE LET r == refs[i] IN
        IF ~IsGlobalRef(r) THEN RefExec(refs, i + 1, reg, reads)
        ELSE IF r.op = "w" THEN RefExec(refs, i + 1, [reg EXCEPT ![VarIdx(r.var)] = r.v], reads)
-       ELSE RefExec(refs, i + 1, reg, Append(reads, [sc |-> r.sc, var |-> r.var, val |-> reg[VarIdx(r.var)]]))
+       ELSE RefExec(refs, i + 1, reg, Append(reads, [sc |-> r.sc, nest |-> r.nest, var |-> r.var, val |-> reg[VarIdx(r.var)]]))
 
 \* Two consecutive Runs of the same template with the same variables.
 \*  - value supplied: each Run starts from a COPY of the supplied value; the caller's variable never changes
@@ -67,7 +89,9 @@ Tag(sc) == CASE sc = "top" -> <<116,111,112>>
              [] sc = "extending" -> <<101,120,116,101,110,100,105,110,103>>
 RECURSIVE Dec(_)
 Dec(n) == IF n < 10 THEN <<48 + n>> ELSE Dec(n \div 10) \o <<48 + (n % 10)>>
-Render(reads) == Flatten([k \in 1..Len(reads) |-> <<91>> \o Tag(reads[k].sc) \o <<58>> \o Dec(reads[k].val) \o <<93>>])
+NestTag(n) == CASE n = 0 -> <<>> [] n = 1 -> <<45, 99>> [] n = 2 -> <<45, 109>>          \* "", "-c", "-m"
+Render(reads) == Flatten([k \in 1..Len(reads) |->
+                   <<91>> \o Tag(reads[k].sc) \o NestTag(reads[k].nest) \o <<58>> \o Dec(reads[k].val) \o <<93>>])
 
 (* ====================== IMPLEMENTATION-SHAPED MODEL ======================
    Transcribed from
@@ -89,8 +113,14 @@ OnlyDedupFixed == [upvarpkg |-> "ident", dedup |-> TRUE]
 \* Compiled functions ("units").  The body file is one function (0); macros and function literals
 \* declared in it are closures of it; every imported macro, rendered file (dummy macro M"path") and
 \* macro of the extending file is a package-level function of its own.
-UnitOf(refs, i) == IF refs[i].sc \in {"imported", "rendered", "extending"} THEN i ELSE 0
-ViaLit(r) == r.sc \in {"macro", "closure"}
+\* A nested literal/macro (nest # 0) is a closure of the function it is nested in; the checker records the
+\* variable as upvar of EVERY enclosing literal, and setFunctionVarRefs resolves each level in its parent, so a
+\* nested reference denotes the Global of its package-level function, recorded the first time anything in
+\* that function (at any depth) refers to it.
+RECURSIVE ContainerOf(_, _)
+ContainerOf(refs, i) == IF refs[i].join = 1 THEN ContainerOf(refs, i - 1) ELSE i     \* first reference of the same macro / file
+UnitOf(refs, i) == IF refs[i].sc \in {"imported", "rendered", "extending"} THEN ContainerOf(refs, i) ELSE 0
+ViaLit(r) == r.sc \in {"macro", "closure"} \/ r.nest # 0
 \* identity of the predefined variable (the *reflect.Value in the type info), its name and declaring package
 Key(r) == IF r.sc = "pkgvar" THEN "p.X" ELSE r.var
 NameOf(key) == IF key = "p.X" THEN "X" ELSE key
@@ -156,7 +186,7 @@ ImplExec(refs, i, st, cells, mem, reads) ==
   ELSE LET r == refs[i] cell == cells[GlobalIdx(st, refs, i)] IN
        IF r.op = "w" THEN ImplExec(refs, i + 1, st, cells, Store(mem, cell, r.v), reads)
        ELSE IF ~IsGlobalRef(r) THEN ImplExec(refs, i + 1, st, cells, mem, reads)
-       ELSE ImplExec(refs, i + 1, st, cells, mem, Append(reads, [sc |-> r.sc, var |-> r.var, val |-> Load(mem, cell)]))
+       ELSE ImplExec(refs, i + 1, st, cells, mem, Append(reads, [sc |-> r.sc, nest |-> r.nest, var |-> r.var, val |-> Load(mem, cell)]))
 
 ImplRunO(c, V, bodyFirst) ==
   LET st == Emit(c.refs, EmOrder(c.refs, bodyFirst), 1, [globals |-> <<>>, tab |-> {}], V)
@@ -178,10 +208,13 @@ Agree(m, ref) == /\ m.reads1 = ref.reads1 /\ m.caller1 = ref.caller1
 FirstBodyScope(refs, key) ==
   LET o == SelectSeq(EmOrder(refs, TRUE), LAMBDA i : UnitOf(refs, i) = 0 /\ Key(refs[i]) = key)
   IN IF Len(o) = 0 THEN "none" ELSE refs[o[1]].sc
-\* (1) the first reference of the body function to a global is inside a function literal
-LitFirst(refs) == \E v \in {"X", "Y"} : FirstBodyScope(refs, v) \in {"macro", "closure"}
+\* (1) the first reference of a package-level function (the body, an imported macro, ...) to a global is inside
+\*     a function literal (a macro or closure declared in it, at any depth)
+FirstInUnit(refs, i) == LET o == SelectSeq(EmOrder(refs, TRUE), LAMBDA j : UnitOf(refs, j) = UnitOf(refs, i) /\ Key(refs[j]) = Key(refs[i]))
+                        IN o[1] = i
+LitFirst(refs) == \E i \in 1..Len(refs) : IsGlobalRef(refs[i]) /\ ViaLit(refs[i]) /\ FirstInUnit(refs, i)
 \* (2) a value (not a pointer) was supplied and a global is written in one function and read in another
 CrossWrite(refs) == \E i, j \in 1..Len(refs) :
      /\ i < j /\ IsGlobalRef(refs[i]) /\ IsGlobalRef(refs[j]) /\ refs[i].var = refs[j].var
-     /\ refs[i].op = "w" /\ refs[j].op = "r" /\ UnitOf(refs, i) # UnitOf(refs, j)
+     /\ refs[i].op = "w" /\ IsRead(refs[j]) /\ UnitOf(refs, i) # UnitOf(refs, j)
 =============================================================================
